@@ -569,6 +569,27 @@ func (c *anyCtx) corpus() (vals []anyVal, perType map[string][]int) {
 			if m := safeBuild(si, mi, si.emptyV(mi)); m != nil {
 				add(anyVal{m: m, class: "empty", si: si, mi: mi, v: si.emptyV(mi)})
 			}
+			// every oneof member alone, holding its zero value (explicit presence: it must survive pack/unpack), and, for
+			// scalar members, a boundary value
+			for i, fi := range mi.fields {
+				if fi.oneofIdx < 0 || !mi.pulsar {
+					continue
+				}
+				for b := 0; b < 2; b++ {
+					v := si.emptyV(mi)
+					if fi.fd.Kind() == protoreflect.MessageKind {
+						if b == 1 {
+							continue
+						}
+						v.L[i] = &V{K: 's', P: si.emptyV(si.byName[fi.fd.Message().FullName()])}
+					} else {
+						v.L[i] = &V{K: 's', P: g.scalarAt(fi.fd, b*3)}
+					}
+					if m := safeBuild(si, mi, v); m != nil {
+						add(anyVal{m: m, class: "oneof-member", si: si, mi: mi, v: v})
+					}
+				}
+			}
 			for k := 0; k < nRandom; k++ {
 				g.badUTF8 = mi.pulsar && k%4 == 3
 				g.big = c.cfg.thorough() && k%8 == 7
